@@ -179,14 +179,15 @@ func (e *Emb) addr4(y int, mode int, rng *rand.Rand) netip.Addr {
 
 // prefix concretizes abstract prefix p (host bits below the abstract space random).
 func (e *Emb) prefix(p [3]int, rng *rand.Rand) netip.Prefix {
+	mode := rng.Intn(2) // bits below the abstract space: random, or zero (the usual way to write a prefix)
 	if p[0] == 1 {
-		return netip.PrefixFrom(e.addr4(p[1], 0, rng), e.O4+p[2])
+		return netip.PrefixFrom(e.addr4(p[1], mode, rng), e.O4+p[2])
 	}
 	bits := e.Off + p[2]
 	if p[2] == 0 && e.Off > 0 && rng.Intn(3) == 0 {
 		bits = rng.Intn(e.Off + 1) // any shorter prefix of the fixed upper bits covers the whole universe too
 	}
-	return netip.PrefixFrom(e.addr6(p[1], 0, rng), bits)
+	return netip.PrefixFrom(e.addr6(p[1], mode, rng), bits)
 }
 
 // text renders a prefix the way a user may write it.
@@ -399,7 +400,9 @@ func replayBeh(idx int, b *Beh, rng *rand.Rand, env *plugEnv) {
 		if job.TraceSample > 0 && (idx*len(embs)+ei)%job.TraceSample == 0 {
 			run = &Run{Kind: "run", Src: "replay", Emb: e, Beh: b}
 		}
-		for pi, perm := range perms(n, job.PermLimit, rng) {
+		allPerms := perms(n, job.PermLimit, rng)
+		ipsetAt := rng.Intn(len(allPerms)) // the ip_set plugin is driven once per embedding, on a random load order
+		for pi, perm := range allPerms {
 			pf := make([]netip.Prefix, n)
 			txt := make([]string, n)
 			for i, k := range perm {
@@ -439,7 +442,7 @@ func replayBeh(idx int, b *Beh, rng *rand.Rand, env *plugEnv) {
 
 			// --- API 2: LoadFromReader (text with comments / blanks) or LoadFromText per line
 			// (all load orders in thorough tier, two per embedding in quick tier)
-			if pi >= 2 && !vh.Thorough() {
+			if pi >= 2 && pi != ipsetAt && !vh.Thorough() {
 				continue
 			}
 			m, err = build(func() (matcher, error) {
@@ -470,7 +473,7 @@ func replayBeh(idx int, b *Beh, rng *rand.Rand, env *plugEnv) {
 			checkAll("reader", orFail(m, err), &e, b, txt, []int{0}, rng, r2)
 
 			// --- API 3: ip_set plugin (ips + files + sets), once per (behaviour, embedding)
-			if pi == 0 {
+			if pi == ipsetAt {
 				k1, k2 := rng.Intn(n+1), rng.Intn(n+1)
 				if k1 > k2 {
 					k1, k2 = k2, k1
